@@ -12,6 +12,7 @@ import (
 	"context"
 	"errors"
 	"fmt"
+	gerrors "github.com/AdguardTeam/golibs/errors"
 	"io"
 	"log/slog"
 	"os"
@@ -96,7 +97,25 @@ func (s *svc) Shutdown(ctx context.Context) error {
 	s.log.add("shutdown %d", s.idx)
 	switch s.outcome {
 	case oErr:
-		return fmt.Errorf("service %d failed", s.idx)
+		// an error is an error whatever it looks like: the shape rotates with the service's position
+		base := fmt.Errorf("service %d failed", s.idx)
+		switch s.idx % 8 {
+		case 1:
+			return gerrors.WithDeferred(nil, base) // golibs' own "deferred" error, as a deferred Close produces
+		case 2:
+			return fmt.Errorf("closing: %w", gerrors.WithDeferred(nil, base))
+		case 3:
+			return gerrors.WithDeferred(base, errors.New("close failed too"))
+		case 4:
+			return fmt.Errorf("service %d: %w", s.idx, context.Canceled)
+		case 5:
+			return errors.Join(base, context.DeadlineExceeded)
+		case 6:
+			return emptyErr{}
+		case 7:
+			return gerrors.Error("constant error")
+		}
+		return base
 	case oPanic:
 		panic(fmt.Sprintf("service %d panicked", s.idx))
 	case oSlow:
@@ -105,6 +124,11 @@ func (s *svc) Shutdown(ctx context.Context) error {
 	}
 	return nil
 }
+
+// emptyErr is an error with an empty text.
+type emptyErr struct{}
+
+func (emptyErr) Error() string { return "" }
 
 type sigCase struct {
 	Outcomes []int `json:"service_outcomes"`
